@@ -118,6 +118,8 @@ def run_vh(args, timeout=900, binary=None, ok_codes=(0, 97)):
         info["events"] = int(m.group(1))
     m = re.search(r"VERIF_HANG (.*)", p.stderr)
     info["hang"] = m.group(1) if m else None
+    if p.returncode == 98:
+        raise MachineryError("a non-decode call ran longer than 300 s: " + p.stderr[-600:])
     if p.returncode not in ok_codes:
         raise MachineryError(f"driver failed rc={p.returncode}: {' '.join(args)}\n{p.stderr[-3000:]}")
     return info
